@@ -1108,3 +1108,25 @@ IMPL_SPECIALS = [
 def impl_special_program(spec):
     tag, attr, items, body = spec
     return ("#![allow(dead_code, unused)]\n" + items.replace("@HEAD@", "#[::derive_ex::derive_ex(%s)]" % attr) + "\nfn main() { %s }\n" % body)
+
+
+def default_fragment_module(idx, entry):
+    """the items written by a macro_rules! macro, the default VALUES containing an `expr` fragment passed by the caller (`$b * 2` with
+    $b = 1 + 2): the fragment must keep its grouping.  Oracle: the same expressions evaluated by rustc in a plain function of the macro."""
+    head = derive_head(["Default"], entry)
+    return """pub mod m%d {
+    macro_rules! mk { ($b:expr, $t:ty, $c:expr) => {
+        %s pub struct D(#[default($b * 2)] pub u32, #[default(7 - $b)] pub u32, #[default($b)] pub u32, #[default(<$t>::MAX - ($b))] pub $t, #[default($c as u32 * 2)] pub u32);
+        %s #[default(D2($b * 2, !$b))] pub struct D2(pub u32, pub u32);
+        %s pub enum E { A, #[default] B { #[default(-$b)] x: i32, #[default(2 * $b)] y: i32, #[default($c * 3)] z: i64 } }
+        pub fn plain() -> (u32, u32, u32, $t, u32, u32, u32, i32, i32, i64) { ($b * 2, 7 - $b, $b, <$t>::MAX - ($b), $c as u32 * 2, $b * 2, !$b, -$b, 2 * $b, $c * 3) }
+    } }
+    mk!(1 + 2, u32, 4 - 1);
+    pub fn run() -> String {
+        let d = <D as ::core::default::Default>::default();
+        let d2 = <D2 as ::core::default::Default>::default();
+        let e = match <E as ::core::default::Default>::default() { E::B { x, y, z } => (x, y, z), E::A => (0, 0, 0) };
+        let got = (d.0, d.1, d.2, d.3, d.4, d2.0, d2.1, e.0, e.1, e.2);
+        format!("{{\\"id\\":%d,\\"ev\\":\\"same_as_twin\\",\\"equal\\":{},\\"got\\":\\"{:?}\\",\\"want\\":\\"{:?}\\"}}\n", got == plain(), got, plain())
+    }
+}""" % (idx, head, head, head, idx)
